@@ -22,15 +22,23 @@ Theorem C04_rebuild_dump : forall ops, o_rebuilt (observe (run ops) 0) = o_live 
 Proof. exact rebuild_dump. Qed.
 Print Assumptions C04_rebuild_dump.
 
-(* a snapshot attempt whose checkpoint is busy (full or incremental) leaves the node exactly as it was: no new
-   segment, and every segment staged by earlier unpersisted attempts is still there *)
+(* a snapshot attempt whose checkpoint is busy (full or incremental) changes nothing but the recorded
+   modification time: no new segment, and every segment staged by earlier unpersisted attempts is still there *)
 Theorem C04_blocked_attempt_keeps_staging : forall s,
-  fst (step s (OSnap PBlocked)) = s /\ staging (fst (step s (OSnap PBlocked))) = staging s.
+  let s' := fst (step s OSnapBlocked) in
+  staging s' = staging s /\ dbf s' = dbf s /\ wal s' = wal s /\ snaps s' = snaps s
+  /\ full_needed s' = full_needed s /\ log s' = log s /\ pending s' = pending s.
 Proof. exact blocked_keeps_staging. Qed.
 Print Assumptions C04_blocked_attempt_keeps_staging.
 
-(* the code as it was before the repair (staging directory never emptied) violates the property *)
+(* the code before repair 1 (staging directory never emptied) violates the property *)
 Theorem C04_unfixed_refuted :
-  exists ops d, rebuilt (run_gen false ops) = Some d /\ get d 1%N <> get (spec_state ops) 1%N.
+  exists ops d, rebuilt (run_gen false true ops) = Some d /\ get d 1%N <> get (spec_state ops) 1%N.
 Proof. exact unfixed_refuted. Qed.
 Print Assumptions C04_unfixed_refuted.
+
+(* the code before repair 2 (a load during an in-flight full persist loses FULL_NEEDED) violates the property *)
+Theorem C04_inflight_unfixed_refuted :
+  exists ops d, rebuilt (run_gen true false ops) = Some d /\ get d 1%N <> get (spec_state ops) 1%N.
+Proof. exact inflight_unfixed_refuted. Qed.
+Print Assumptions C04_inflight_unfixed_refuted.
